@@ -165,7 +165,10 @@ def run_check(pid, cfg, tier, seed, args, t0):
                                               'witness': slot.get('witness', {}), 'model': slot.get('model'),
                                               'path': slot.get('path'), 'segment': slot.get('segment')}})
                 elif slot['status'] == 'undecided':
-                    undecided.append({'obligation': oid, 'reason': 'solver: %s' % slot.get('detail')})
+                    undecided.append({'obligation': oid, 'reason': 'solver: %s' % slot.get('detail'),
+                                      'case': {'target': target, 'clause': clause, 'where': slot.get('where', ''),
+                                               'witness': {}, 'model': None, 'path': slot.get('path'),
+                                               'segment': slot.get('segment')}})
     # ---- 2. ground obligations (finite, decided by evaluation under /venv python) ----------
     bounded = []
     if cfg.get('native'):
@@ -231,7 +234,7 @@ def run_check(pid, cfg, tier, seed, args, t0):
             else:
                 f['confirmed'] = False
                 f['replay_note'] = (res.get('error') or json.dumps(res.get('result'), default=repr))[:2000]
-        rp = os.path.join('replays', pid, slug(oid) + '.json')
+        rp = os.path.join('replays', pid, slug(oid + '|' + str(f.get('canon') or '')) + '.json')
         doc = {'property': pid, 'obligation': oid, 'kind': f['kind'], 'status': f['status'],
                'confirmed_on_real_code': f.get('confirmed', False), 'canonical_witness': f.get('canon'),
                'detail': f.get('detail'), 'case': f['case'], 'observed': f.get('observed'), 'input': f.get('input'),
@@ -250,6 +253,34 @@ def run_check(pid, cfg, tier, seed, args, t0):
             else:
                 undecided.append({'obligation': oid, 'reason': 'candidate counterexample of the quantifier-free '
                                   'hypotheses did not replay on the real code'})
+    # an obligation the solver could not decide: look for a concrete failing input on the real code
+    # (DESIGN.md section 3 step 3); a found input is a confirmed violation, nothing found stays UNDECIDED
+    still = []
+    for u in undecided:
+        case = u.get('case')
+        if case and cfg.get('native') and len([x for x in undecided if x.get('case')]) <= 12:
+            res = run_native(cfg['native'], 'replay', dict(case, undecided=True))
+            if res.get('ok') and res['result'].get('confirmed'):
+                oid = u['obligation']
+                canon = res['result'].get('canon') or ''
+                rp = os.path.join('replays', pid, slug(oid) + '.json')
+                json.dump({'property': pid, 'obligation': oid, 'kind': 'pyvc', 'status': 'undecided-by-solver',
+                           'confirmed_on_real_code': True, 'canonical_witness': canon, 'case': case,
+                           'solver_output': u['reason'], 'input': res['result'].get('input'),
+                           'observed': res['result'].get('observed'),
+                           'replay_cmd': './check %s --replay %s' % (pid, rp)},
+                          open(os.path.join(ROOT, rp), 'w'), indent=1, default=repr)
+                hit = [k for k in known if k['obligation'] == oid and k['witness'] == canon]
+                if hit:
+                    known_hits.append((oid, hit[0]['text']))
+                else:
+                    violations.append((oid, rp, ''))
+                failures.append({'obligation': oid, 'kind': 'pyvc', 'status': 'undecided', 'confirmed': True,
+                                 'canon': canon, 'case': case})
+                continue
+        u.pop('case', None)
+        still.append(u)
+    undecided = still
     # ---- 5. evidence -------------------------------------------------------------------------------
     n_ob = len(obligations)
     n_dis = sum(1 for o in obligations if o['status'] == 'discharged')
